@@ -849,8 +849,20 @@ def showLedger (l : List Exec) : String :=
       let seen := Parse.joinWith "+" (e.seen.map (fun kv => s!"{kv.1}:{kv.2}"))
       s!"{e.s}.{e.t}.{e.n}[{seen}]"))
 
+/-- `engine dstatus <cont 0|1> <failp 0|1> <current status> <task statuses, comma separated | ->`: the stage-status rule alone
+    (`StageExecution.determine_status()` of a stage without synthetic children) -/
+def driveDStatus (cont failp cur ts : String) : String :=
+  let tsl := if ts == "-" then some [] else Parse.all? Status.ofName? (ts.splitOn ",")
+  match Status.ofName? cur, tsl with
+  | some cur, some tsl =>
+    let sc : StageCfg := { reqs := [], join := default, threshold := 0, cont := cont == "1", failp := failp == "1",
+                           enabled := none, maxj := none, tasks := [] }
+    (determineStatus sc cur tsl).name
+  | _, _ => "bad-request"
+
 def drive (rest : String) : String :=
   match rest.splitOn " " with
+  | ["dstatus", cont, failp, cur, ts] => driveDStatus cont failp cur ts
   | [spec, ops] =>
     match parseCfg spec, (if ops == "-" then some [] else Parse.all? parseOp (ops.splitOn ",")) with
     | some c, some ops =>
